@@ -371,7 +371,9 @@ func (c *lexerCompiler) resolveClasses() {
 	}
 	tables, err := lex.Compile(rewritten, c.opts.ScanBytes, true /*allowBacktracking*/)
 	if err != nil {
-		// Pretend that these class rules do not exist in the grammar and keep going.
+		// Keep the class rules as ordinary rules: the main compilation reports their problems.
+		c.rules = append(c.rules, c.classRules...)
+		c.classRules = nil
 		return
 	}
 
